@@ -11,6 +11,7 @@ field_types = {"hugr.ops.Command.incoming": "Seq[Union[Node, OutPort, int]]"}
 extra_fields = {
     "hugr.build.dfg.DfBase._ta_op": "Seq[DataflowOp]", "hugr.build.dfg.DfBase._ta_node": "Seq[Node]",
     "hugr.hugr.base.Hugr._tl_src": "Seq[OutPort]", "hugr.hugr.base.Hugr._tl_dst": "Seq[InPort]",
+    "hugr.build.dfg.DfBase._tc_val": "Seq[Value]", "hugr.build.dfg.DfBase._tc_parent": "Seq[Opt[Node]]", "hugr.build.dfg.DfBase._tc_node": "Seq[Node]",
 }
 
 
@@ -76,4 +77,69 @@ class load_node:
             and same_obj(the(as_cls(op, LoadConst)._typ), ghost("vtype", "Type", value)),
             "P_returns_the_load_node": eq(result, nth(self._ta_node, n_a - 1)),
             "P_linked_to_the_constant": n_l == len(old(h._tl_src)) + 1 and eq(nth(h._tl_src, n_l - 1), OutPort(const, 0)) and eq(nth(h._tl_dst, n_l - 1), InPort(result, 0)),
+        }
+
+
+@contract("hugr.build.dfg.DefinitionBuilder.add_const", props=[])
+class add_const_rec:
+    """TRUSTED here: a call recorder (ghost trace) whose non-ghost clauses are the ones PROVED for the real body
+    in contracts/add_const.py against the C04 contract of Hugr.add_node."""
+    trusted = True
+    exact_self = False
+    types = {"value": "Value", "parent": "Opt[Node]"}
+    returns = "Node"
+
+    def modifies(self, value, parent):
+        return [self._tc_val, self._tc_parent, self._tc_node, self.hugr._nodes, self.hugr._free_nodes,
+                "hugr.hugr.base.NodeData.children", "hugr.hugr.base.NodeData._num_outs", "hugr.hugr.base.NodeData._num_inps"]
+
+    def raises(self, value, parent):
+        return {}
+
+    def ensures(self, value, parent, result):
+        h = self.hugr
+        return {"t_val": eq(self._tc_val, concat(old(self._tc_val), Seq(Value, value))),
+                "t_parent": eq(self._tc_parent, concat(old(self._tc_parent), Seq("Opt[Node]", parent))),
+                "t_node": eq(self._tc_node, concat(old(self._tc_node), Seq(Node, result))),
+                "const_node": result.idx >= 0 and result.idx < len(h._nodes) and notNone(nth(h._nodes, result.idx))
+                and cls_is(the(nth(h._nodes, result.idx)).op, Const) and same_obj(as_cls(the(nth(h._nodes, result.idx)).op, Const).val, value)}
+
+
+@contract("hugr.build.dfg.DfBase.load#value", props=["C14"])
+class load_value:
+    """const is a bare value: a Const node holding exactly that value is added first (DefinitionBuilder.add_const:
+    recorder here, proved in contracts/add_const.py), under const_parent if given, else under the container; then
+    as for a node (Hugr._get_typed_op is not under contract: its body is executed)."""
+    types = {"const": "Value", "const_parent": "Opt[Node]"}
+    exact_self = True
+    self_class = "hugr.build.dfg.Dfg"
+    returns = "Node"
+
+    def requires(self, const, const_parent):
+        h = self.hugr
+        return (len(self._ta_op) == len(self._ta_node) and len(h._tl_src) == len(h._tl_dst)
+                and len(self._tc_val) == len(self._tc_parent) and len(self._tc_val) == len(self._tc_node))
+
+    def modifies(self, const, const_parent):
+        return [self._ta_op, self._ta_node, self._tc_val, self._tc_parent, self._tc_node, self.hugr._nodes, self.hugr._free_nodes, self.hugr._links.fwd, self.hugr._links.bck,
+                self.hugr._tl_src, self.hugr._tl_dst, "hugr.hugr.base.NodeData.children", "hugr.hugr.base.NodeData._num_outs", "hugr.hugr.base.NodeData._num_inps"]
+
+    def raises(self, const, const_parent):
+        return {}
+
+    def ensures(self, const, const_parent, result):
+        h = self.hugr
+        n_a = len(self._ta_op)
+        n_l = len(h._tl_src)
+        n_c = len(self._tc_val)
+        op = nth(self._ta_op, n_a - 1)
+        c = nth(self._tc_node, n_c - 1)
+        p = nth(self._tc_parent, n_c - 1)
+        return {
+            "P_one_constant_node_holding_the_value": n_c == len(old(self._tc_val)) + 1 and len(self._tc_node) == n_c and len(self._tc_parent) == n_c and same_obj(nth(self._tc_val, n_c - 1), const),
+            "P_constant_under_the_requested_parent": notNone(p) and the(p).idx == ite(isNone(const_parent), self.parent_node, the(const_parent)).idx,
+            "P_load_has_the_reported_type": n_a == len(old(self._ta_op)) + 1 and cls_is(op, LoadConst) and notNone(as_cls(op, LoadConst)._typ)
+            and same_obj(the(as_cls(op, LoadConst)._typ), ghost("vtype", "Type", const)),
+            "P_returns_the_load_node": eq(result, nth(self._ta_node, n_a - 1)),
+            "P_linked_to_the_constant": n_l == len(old(h._tl_src)) + 1 and eq(nth(h._tl_src, n_l - 1), OutPort(c, 0)) and eq(nth(h._tl_dst, n_l - 1), InPort(result, 0)),
         }
